@@ -30,7 +30,7 @@ Proof.
 Qed.
 
 Lemma get_set_header name v q : get_header name (set_header name v q) = trim_blanks v.
-Proof. unfold get_header, set_header. cbn [r_headers lookup]. now rewrite bytes_eqb_refl. Qed.
+Proof. unfold get_header, raw_header, set_header. cbn [r_headers lookup]. now rewrite bytes_eqb_refl. Qed.
 
 Lemma get_set_query name v q : get_query name (set_query name [v] q) = v.
 Proof. unfold get_query, set_query. cbn [r_query lookup_vals]. now rewrite bytes_eqb_refl. Qed.
@@ -148,7 +148,7 @@ Theorem default_auth_rule : forall op default q,
   effective_auth op default q =
   match op with
   | Some w => w q
-  | None => match default, get_header s_authorization q with
+  | None => match default, raw_header s_authorization q with
             | Some d, [] => d q
             | _, _ => q
             end
